@@ -519,6 +519,7 @@ async fn watch_membership_changes(
     membership_changes_tx: watch::Sender<MembershipChange>,
 ) {
     let mut last_network_set = BTreeSet::new();
+    let mut last_members = NodeMembership::default();
     while let Some(members) = changes.next().await {
         info!(
             self_node_id = %self_node_id,
@@ -557,7 +558,9 @@ async fn watch_membership_changes(
 
             network.disconnect(*addr);
 
-            if let Some(member) = members.get(node_id) {
+            // The node is no longer part of (or has changed within) the new member set, so
+            // it must be reported as it was in the previous set.
+            if let Some(member) = last_members.get(node_id) {
                 membership_changes.left.push(member.clone());
             }
         }
@@ -578,5 +581,6 @@ async fn watch_membership_changes(
 
         let _ = membership_changes_tx.send(membership_changes);
         last_network_set = new_network_set;
+        last_members = members;
     }
 }
